@@ -150,7 +150,8 @@ namespace options
 
                     while (std::getline(str, element, ';'))
                     {
-                        update_value(element);
+                        dirty_ = true;
+                        value_.push_back(element);
                     }
 
                     return;
